@@ -7,6 +7,7 @@ import LekkerVerif.Model.DriverPrune
 import LekkerVerif.Model.DriverNames
 import LekkerVerif.Core.Monitor
 import LekkerVerif.Core.HierSolve
+import LekkerVerif.Model.HierParams
 /-! Driver ops.  Each op runs executable definitions of the model on the decoded request. -/
 open Lean
 
@@ -183,6 +184,65 @@ def opHSolve (j : Json) : Json :=
       Json.mkObj [("pins", toJson c.pins),
                   ("T", Json.arr (c.pins.map fun x => Json.arr (c.pins.map fun y => gratToJson (c.sem x y)).toArray).toArray)]
 
+/-! ### op `phsolve` : `top.solve(**kw)` of a parametric hierarchy (`PNet.psolve`: defaults registered at placement, dictionaries
+resolved and renamed on the way down, every level solved bottom-up) -/
+
+structure PLeafJ where
+  pins : Array String
+  idx : Array Nat
+  S0 : Json
+  S1 : Json
+  param : String
+  dflt : Json
+deriving FromJson
+
+def parseKw (j : Json) : Option (Dict GRat) :=
+  match j with
+  | .arr xs => (xs.toList.mapM fun (x : Json) => match x with
+      | Json.arr #[Json.str k, v] => (parseGRat v).map fun z => (k, z)
+      | _ => none).map fun l => ⟨l⟩
+  | _ => none
+
+partial def parsePTree (j : Json) : Option (PNet GRat) :=
+  match j.getObjVal? "leaf" with
+  | .ok l => do
+    let c ← (fromJson? (α := PLeafJ) l).toOption
+    let n := c.pins.size
+    let S0 ← parseMat n n c.S0
+    let S1 ← parseMat n n c.S1
+    let d ← parseGRat c.dflt
+    pure (.leaf c.pins.toList (c.pins.toList.zip c.idx.toList) S0 S1 c.param d)
+  | .error _ => do
+    let ch ← getArr j "children"
+    let children ← ch.toList.mapM fun (x : Json) => match x with
+      | Json.arr #[t, sub] => do
+        let tab ← parsePairsStr t
+        let s ← parsePTree sub
+        pure (tab, s)
+      | _ => none
+    let links ← ((j.getObjVal? "links").toOption >>= fun x => (fromJson? (α := Array LinkJ) x).toOption)
+    let exposed ← ((j.getObjVal? "exposed").toOption >>= fun x => (fromJson? (α := Array ExpJ) x).toOption)
+    pure (.node children (links.toList.map fun l => ((l.a, l.p), (l.b, l.q))) (exposed.toList.map fun e => (e.name, (e.c, e.p))))
+
+def dictToJson (d : Dict GRat) : Json := Json.arr (d.kv.map fun kv => Json.arr #[Json.str kv.1, gratToJson kv.2]).toArray
+
+def opPHSolve (j : Json) : Json :=
+  match (j.getObjVal? "tree").toOption >>= parsePTree, (j.getObjVal? "kw").toOption >>= parseKw with
+  | some t, some kw =>
+    let base := [("defaults", dictToJson t.defaults)]
+    let paths : List (List Nat) := match (j.getObjVal? "paths").toOption >>= fun x => (fromJson? (α := List (List Nat)) x).toOption with
+      | some ps => ps
+      | none => []
+    let base := base ++ [("dicts", Json.arr (paths.map fun p => match PNet.dictAt kw t p with
+      | some d => dictToJson d
+      | none => Json.null).toArray)]
+    match PNet.psolve Solve.pySched kw t with
+    | .error e => Json.mkObj (base ++ [("err", Json.str (errName e))])
+    | .ok c =>
+      Json.mkObj (base ++ [("pins", toJson c.pins),
+                  ("T", Json.arr (c.pins.map fun x => Json.arr (c.pins.map fun y => gratToJson (c.sem x y)).toArray).toArray)])
+  | _, _ => errJson "parse"
+
 /-- op `monsolve`: the monitor path of `Solver.solve` (`Monitor.solveMonitored` with the pin-count heuristic) -/
 def opMonSolve (j : Json) : Json :=
   match fromJson? (α := CaseJ) j with
@@ -220,6 +280,7 @@ def dispatch (j : Json) : Json :=
   | some "solve" => opSolve j
   | some "monsolve" => opMonSolve j
   | some "hsolve" => opHSolve j
+  | some "phsolve" => opPHSolve j
   | some "stack" => opStack j
   | some "rename" => opRename j
   | some "compose" => opCompose j
